@@ -306,6 +306,16 @@ struct Driver {
             for (size_t i = 0; i < j; ++i) --a;
             if (!(a == pr.first)) backok = false;
         }
+        // the whole range backwards: from the last element, -- until the iterator reports invalid; that must be the
+        // forward sequence reversed (deleted entities at the FRONT of the array are skipped on the way down, too)
+        if (n > 0) {
+            auto a = pr.first;
+            for (size_t i = 0; i + 1 < n; ++i) ++a;
+            std::vector<int> back;
+            while (a.valid() && back.size() < n + 2) { back.push_back(a->idx()); --a; }
+            if (back.size() != n) backok = false;
+            else for (size_t i = 0; i < n; ++i) if (back[i] != seq[n - 1 - i]) backok = false;
+        }
         int peh = -2, pev = -1;
         if (n > 0) { auto e = pr.second; --e; peh = e->idx(); pev = e.valid() ? 1 : 0; }
         fprintf(OUT, "ite_%s 0 1 %d %zu %d %d %d %zu", name, endeq ? 1 : 0, cnt, backok ? 1 : 0, peh, pev, n);
@@ -367,7 +377,17 @@ struct Driver {
         for (int hf = 0; hf < 2 * nF(); ++hf) {
             if (!liveHF(hf)) continue;
             std::vector<int> w = hf_verts(hf);
-            if (w.size() < 3) continue;
+            // the halfedge list of this side as the library reports it (C08: the odd side is the reversed list of opposites)
+            { std::vector<int> l = hf_hes(hf); fprintf(OUT, "lhfhes %d %zu", hf, l.size()); for (int x : l) fprintf(OUT, " %d", x); fputc('\n', OUT);
+              fprintf(OUT, "lopphf %d %d\n", hf, m.opposite_halfface_handle(HalfFaceHandle(hf)).idx()); }
+            if (w.size() < 3) {      // loops and 2-gons: the cycle queries only
+                for (int h : hf_hes(hf)) {
+                    fprintf(OUT, "lnext %d %d %d\n", h, hf, m.next_halfedge_in_halfface(HalfEdgeHandle(h), HalfFaceHandle(hf)).idx());
+                    fprintf(OUT, "lprev %d %d %d\n", h, hf, m.prev_halfedge_in_halfface(HalfEdgeHandle(h), HalfFaceHandle(hf)).idx());
+                }
+                { auto r = m.get_halfface_vertices(HalfFaceHandle(hf)); std::vector<int> l; for (auto x : r) l.push_back(x.idx()); print_list("lghv", hf, l); }
+                continue;
+            }
             for (int variant = 0; variant < 3; ++variant) {
                 std::vector<int> u = w;
                 if (variant == 1) std::rotate(u.begin(), u.begin() + 1, u.end());
@@ -753,11 +773,20 @@ struct Driver {
             exec(op);
             return;
         }
+        // C08 quantifies over "faces of every valence >= 1 incl. loops and 2-gons": the lookup profile of the polyhedral
+        // kernel also builds loop edges (v,v), one-halfedge faces and 2-gons
+        bool degenerate = profile == "c10" && kind == "poly";
         if (lv.size() >= 2) {
             int a = rng.pick(lv), b = rng.pick(lv);
-            if (a == b) return;
+            if (a == b && !(degenerate && rng.chance(1, 2))) return;
             if (what == 1) { exec(mk("add_edge", {a, b, 0})); return; }
             if (what == 2) { exec(mk("add_edge", {a, b, 1})); return; }
+        }
+        if (degenerate && !lv.empty() && rng.chance(1, 5)) {
+            std::vector<int> vs = lv; rng.shuffle(vs); vs.resize(std::min<size_t>(vs.size(), 1 + rng.below(2)));
+            Op op; op.name = "add_face_v"; op.a.push_back((long)vs.size()); for (int v : vs) op.a.push_back(v);
+            exec(op);
+            return;
         }
         if (lv.size() >= 3 && kind == "poly") {
             std::vector<int> vs = lv; rng.shuffle(vs); vs.resize(std::min<size_t>(vs.size(), 3 + rng.below(3)));
